@@ -501,6 +501,7 @@ def run(ctx):
         judge(ctx, script, S, meta, obs, names)
     flush(ctx)
     transport_follows_options(ctx)
+    constructor_order(ctx)
     clone_behaviour(ctx)
     ctx.sample({"script": [{"k": "client"}, {"k": "clone", "c": 0}, {"k": "tset", "c": 1, "name": "timeout", "value": 5},
                            {"k": "set", "c": 0, "name": "faults", "value": "yes"}]})
@@ -567,6 +568,39 @@ def clone_behaviour(ctx):
                 ctx.fail("an option set on one of a client and its clone does not decide that client's requests",
                          dict(meta, request_of="original"), "the clone's value" if got_c == got_k else repr(got_c),
                          repr(want_c))
+
+
+def constructor_order(ctx):
+    """The constructor applies its keyword options in the order given, exactly as the same sequence of set_options
+    calls on a plain client would - a transport among them included, wherever it stands."""
+    import suds.transport.http
+    rng = ctx.rng
+    pool = [("timeout", 7), ("username", "bob"), ("proxy", {"http": "h:1"}), ("faults", False), ("location", "http://l.invalid/")]
+    for _ in range(ctx.pick(12, 120)):
+        opts = rng.sample(pool, rng.randint(1, 3))
+        pos = rng.randint(0, len(opts))
+        names = [n for n, _v in opts]
+
+        def build(how):
+            tr = suds.transport.http.HttpTransport()
+            seq = opts[:pos] + [("transport", tr)] + opts[pos:]
+            if how == "constructor":
+                c = wsdlkit.client(wsdl(), **dict(seq))
+            else:
+                c = wsdlkit.client(wsdl())
+                for n, v in seq:
+                    c.set_options(**{n: v})
+            return [c.options.transport is tr] + [getattr(c.options, n) for n in names]
+        meta = {"stream": "constructor-order", "options": names, "transport_at": pos}
+        ctx.case(common.canon(meta), True)
+        try:
+            a = build("constructor")
+        except Exception as e:
+            a = "%s: %s" % (type(e).__name__, e)
+        b = build("set_options")
+        if a != b:
+            ctx.fail("the constructor does not apply its options like the same sequence of set_options calls", meta,
+                     repr(a), repr(b))
 
 
 def transport_follows_options(ctx):
